@@ -850,10 +850,6 @@ fn ring_with_others_space(ctx: &Ctx) {
                         continue;
                     }
                     for li in 0..ld.len() {
-                        // one member is listed as a known finding (see `ring_known_case`) and judged there
-                        if (ci, k, di, ei, li) == (0, 7, 2, 2, 1) {
-                            continue;
-                        }
                         cases.push((ci, k, di, ei, li));
                     }
                 }
@@ -936,7 +932,7 @@ fn ring_with_others_space(ctx: &Ctx) {
     );
 }
 
-/// the one member of `ring_with_others_space` that still fails after 0a (the step cap): 7 ((x+8)^7 - 0.4^7)(x-1)(x-2)(x-2.5). The unrefined
+/// the one member of `ring_with_others_space` that still failed after the step cap (until the deflation direction was repaired): 7 ((x+8)^7 - 0.4^7)(x-1)(x-2)(x-2.5). The unrefined
 /// values of the ring are 0.1 off (their normwise backward error is 1e-18: max|a_k| max(1,|z|)^10 is 1e19 here, so that measure says nothing),
 /// and the polish then takes one of them to a neighbour's root. Listed, not repaired: it is the accuracy of deflation on a polynomial whose
 /// coefficients span ten orders of magnitude, not a cycle.
@@ -971,7 +967,42 @@ fn ring_known_case(ctx: &Ctx) {
             }),
         ));
     }
-    ctx.known_cases("listed input: a ring of seven about -8 next to three more roots (deflation accuracy)", cases);
+    // (a known finding for two hours: repaired by the deflation-direction fix of the fifth hunt)
+    ctx.listed_cases("listed input: a ring of seven about -8 next to three more roots (deflation direction)", cases);
+    // fifth hunt: a close pair far from the origin next to a small root (repaired), and a cubic with three roots within 2% (known finding)
+    let mut cases: Vec<(String, Box<dyn Fn() -> Result<(), String> + Sync + Send>)> = vec![];
+    for refine in [false, true] {
+        cases.push((
+            format!("close pair near 64 next to 1.25 and 65, refine={}", refine),
+            Box::new(move || {
+                let coef = expand((1., 0.), &[(1.25, 0.), (64., 0.), (64.00390625, 0.), (65., 0.)]);
+                for got in [run_cmplx(&coef, refine), Polynomial::<f64>::new(coef.iter().map(|z| z.0).collect()).roots(refine).vec.iter().map(|z| (z.real, z.imag)).collect::<Vec<C>>()] {
+                    for t in [(1.25, 0.), (64., 0.), (64.00390625, 0.), (65., 0.)] {
+                        let near = got.iter().filter(|z| cabs(csub(**z, t)) <= 1e-3).count();
+                        ensure!(near == 1, "the root {:?} is returned {} times; returned {:?}", t, near, got);
+                    }
+                }
+                Ok(())
+            }),
+        ));
+    }
+    ctx.listed_cases("listed input of the fifth bug hunt: a close pair far from the origin (deflation direction)", cases);
+    let mut cases: Vec<(String, Box<dyn Fn() -> Result<(), String> + Sync + Send>)> = vec![];
+    for refine in [false, true] {
+        cases.push((
+            format!("clustered cubic (x-2)(x-2.00048828125)(x-2.03125) refine={}", refine),
+            Box::new(move || {
+                let coef = expand((1., 0.), &[(2., 0.), (2.00048828125, 0.), (2.03125, 0.)]);
+                let got = run_cmplx(&coef, refine);
+                for t in [(2., 0.), (2.00048828125, 0.), (2.03125, 0.)] {
+                    let near = got.iter().filter(|z| cabs(csub(**z, t)) <= 1e-4).count();
+                    ensure!(near == 1, "the root {:?} is returned {} times; returned {:?}", t, near, got);
+                }
+                Ok(())
+            }),
+        ));
+    }
+    ctx.known_cases("listed input: a cubic with three roots within two per cent (Cardano's expanded discriminant)", cases);
 }
 
 /// listed inputs of the fourth bug hunt (hunt/C10/round4), repaired by 4299543: counts of returned values near each root
